@@ -96,6 +96,7 @@ type c10Run struct {
 	subs   []*c10Sub
 	b      *batcher.Batcher[int, int]
 	clk    *clocktesting.FakeClock
+	quit   chan struct{} // closed when the case is over (see consumer)
 }
 
 func (r *c10Run) rec(kind, i, v int) {
@@ -104,27 +105,47 @@ func (r *c10Run) rec(kind, i, v int) {
 	r.mu.Unlock()
 }
 
+// r.quit is closed only AFTER the script and its epilogue have come to rest: it lets the consumer of
+// a channel that will never be closed (silently dropped subscription) end, so that parked
+// goroutines do not pile up over thousands of cases (every quiescence check dumps all stacks).
 func (r *c10Run) consumer(i int, s *c10Sub, prompt bool) {
 	if !prompt {
 		for {
-			c := <-s.cmd
+			var c int
+			select {
+			case c = <-s.cmd:
+			case <-r.quit:
+				return
+			}
 			if c == 2 {
 				break
 			}
-			v, ok := <-s.ch
+			select {
+			case v, ok := <-s.ch:
+				if !ok {
+					r.rec(evClosed, i, 0)
+					s.pending.Add(-1)
+					return
+				}
+				r.rec(evRecv, i, v)
+				s.pending.Add(-1)
+			case <-r.quit:
+				return
+			}
+		}
+	}
+	for {
+		select {
+		case v, ok := <-s.ch:
 			if !ok {
 				r.rec(evClosed, i, 0)
-				s.pending.Add(-1)
 				return
 			}
 			r.rec(evRecv, i, v)
-			s.pending.Add(-1)
+		case <-r.quit:
+			return
 		}
 	}
-	for v := range s.ch {
-		r.rec(evRecv, i, v)
-	}
-	r.rec(evClosed, i, 0)
 }
 
 // goroutine states in which a goroutine cannot run until another goroutine (or the driver) acts.
@@ -229,7 +250,7 @@ func c10Validate(in c10Input) error {
 // step: per subscriber its receptions in arrival order, then its closure; then returned calls by
 // issuing step).
 func c10Exec(in c10Input) ([]c10Ev, error) {
-	r := &c10Run{}
+	r := &c10Run{quit: make(chan struct{})}
 	r.clk = clocktesting.NewFakeClock(time.Unix(1700000000, 0))
 	r.b = batcher.New[int, int](time.Duration(in.Interval) * time.Millisecond)
 	r.b.WithClock(r.clk)
@@ -343,7 +364,12 @@ func c10Exec(in c10Input) ([]c10Ev, error) {
 		runErr = err
 	}
 	// a subscription that was silently dropped (Subscribe after Close) never closes its channel:
-	// its consumer stays parked for good; that is the documented behaviour, not a leak of ours.
+	// its consumer would stay parked for good (documented behaviour); everything is at rest now and
+	// nothing more is observed, so let those consumers go.
+	close(r.quit)
+	if err := c10Settle(); err != nil && runErr == nil {
+		runErr = err
+	}
 	return r.events, runErr
 }
 
